@@ -119,7 +119,9 @@ class ScriptPolicy(object):
         self.calls.append(("should_retry", attempt, s.now))
         e = self._entry(attempt)
         if e == "raise":
+            s.ev("policy!", "should_retry", attempt, "E2")
             raise EXC["E2"]("policy")
+        s.ev("policy<", "should_retry", attempt, e.startswith("retry"))
         return e.startswith("retry")
 
     def sleep_time(self, attempt, future):
@@ -128,7 +130,9 @@ class ScriptPolicy(object):
         self.calls.append(("sleep_time", attempt, s.now))
         e = self._entry(attempt)
         if e == "retry:raise":
+            s.ev("policy!", "sleep_time", attempt, "E2")
             raise EXC["E2"]("policy-sleep")
+        s.ev("policy<", "sleep_time", attempt, float(e.split(":")[1]))
         return float(e.split(":")[1])
 
 
@@ -196,10 +200,13 @@ def run_clients(desc, s, w, ctx):
             if kind == "raise":
                 raise EXC["E2"]("cb%d" % cbid)
             if kind == "submit":
+                nkey = "nested%d" % cbid
+                s.ev("call", "submit", nkey)
                 try:
-                    ex.submit(w.fn("nested%d" % cbid, [[("ret", -1)]]))
-                except RuntimeError:
-                    pass
+                    nf = ex.submit(w.fn(nkey, [[("ret", -1)]]))
+                    s.ev("ret", "submit", vname(nf), nkey)
+                except RuntimeError as e:
+                    s.ev("raise", "submit", type(e).__name__, str(e)[:60])
         return cb
 
     def client(ci, ops):
